@@ -585,7 +585,7 @@ void World::gui_note_sent(const std::string& line)
 
 void World::send_line(const Op& op)
 {
-    inq.push_back(op.line);
+    inq.push_back(op.line.find("@BOOK@") != std::string::npos ? book_substitute(this, op.line) : op.line);
     trace_event(0x5E4D, fnv1a(FNV_INIT, op.line.data(), op.line.size()), uint64_t(inq.size()));
     gui_note_sent(op.line);
     // faults attached to a go are bound to its GoRec
@@ -604,7 +604,12 @@ void World::on_line_consumed(Task* t, const std::string& line)
 {
     TSAN_ACQUIRE(&gui_sync);
     int s = int(seq++);
-    trace_event(0xC0115, fnv1a(FNV_INIT, line.data(), line.size()), uint64_t(s));
+    {
+        // the book path names a per-process scratch file: keep it out of the trace hash
+        size_t bp = line.find("Polyglot Book value");
+        size_t hl = bp == std::string::npos ? line.size() : bp;
+        trace_event(0xC0115, fnv1a(FNV_INIT, line.data(), hl), uint64_t(s));
+    }
     (void)t;
     if (starts_with(line, "go"))
     {
@@ -865,6 +870,7 @@ void World::check_bestmove(GoRec& g, const std::string& line)
                       "'" + g.line + "' in " + g.root.fen() + " answered '" + line + "'");
     }
     if (want_c08) check_c08_bestmove(g);
+    if (book) book_check_bestmove(this, g);
     // C09: "answers with its bestmove no later than the completion of iteration d"
     if (g.depth > 0 && !g.infos.empty() && g.infos.back().depth > g.depth)
         violation("C09", "depth-exceeds-limit", "'" + g.line + "' reported depth " + std::to_string(g.infos.back().depth));
@@ -1582,6 +1588,7 @@ RunResult run_world(const Script& script)
     for (size_t i = n > 6 ? n - 6 : 0; i < n; ++i) res.transcript_tail.push_back(world.transcript[i].text);
 
     world.teardown_monitors();
+    book_teardown(&world);
     delete world.uci;
     world.uci = nullptr;
     W = nullptr;
